@@ -274,7 +274,7 @@ func (la *LeapArray) ValuesConditional(now uint64, predicate base.TimePredicate)
 // isBucketDeprecated checks whether the BucketWrap is expired, according to given timestamp.
 func (la *LeapArray) isBucketDeprecated(now uint64, ww *BucketWrap) bool {
 	ws := atomic.LoadUint64(&ww.BucketStart)
-	return (now - ws) > uint64(la.intervalInMs)
+	return (now - ws) >= uint64(la.intervalInMs)
 }
 
 // BucketGenerator represents the "generic" interface for generating and refreshing buckets.
